@@ -4,6 +4,7 @@ import math
 import random
 import numpy as np
 import common
+from props import mmulti
 from common import xr, xvec, from_xr, from_xvec, num_close
 
 ID = "C06"
@@ -273,3 +274,8 @@ def judge(op, impl_out, spec_out):
 
 def nontrivial(op, out):
     return out not in ("nan", "none", "ERR") and not out.startswith("E")
+
+
+# stream family metric.multi (props/mmulti.py): the contingency scores through the real compute / compute_single on
+# datasets with several inputs, for every input index, axis and slice index; ops with the prefix `mm ` are delegated
+mmulti.install(globals(), "cont")
